@@ -3304,7 +3304,8 @@ JANET_CORE_FN(cfun_ev_deadline,
     JanetFiber *tocheck = janet_optfiber(argv, argc, 2, janet_vm.fiber);
     int use_interrupt = janet_optboolean(argv, argc, 3, 0);
     JanetTimeout to;
-    to.when = ts_delta(ts_now(), sec);
+    JanetTimestamp now = ts_now();
+    to.when = ts_delta(now, sec);
     to.fiber = tocancel;
     to.curr_fiber = tocheck;
     to.is_error = 0;
@@ -3317,7 +3318,9 @@ JANET_CORE_FN(cfun_ev_deadline,
         if (NULL == tto) {
             JANET_OUT_OF_MEMORY;
         }
-        tto->sec = sec;
+        /* The worker must not wake before the timer below has expired, or its interrupt
+         * finds nothing to cancel and the interrupted fiber is resumed for good. */
+        tto->sec = (to.when == INT64_MAX) ? sec : (double)(to.when - now) / 1000.0;
         tto->vm = &janet_vm;
         tto->fiber = tocheck;
 #ifdef JANET_WINDOWS
